@@ -78,15 +78,25 @@ class MemFS(object):
                 self.parts.append(data)
         if "w" in mode:
             return W()
-        return self.reader(path)
+        return self.reader(path, kw.get("encoding"))
 
     # text-mode read with universal newlines: lines end after \n, \r\n and lone \r are translated to \n
-    def reader(self, path):
+    def reader(self, path, encoding=None):
         if path not in self.files:
             raise IOError(2, "No such file", path)
         text = self.files[path]
         cps = list(text.cps) if hasattr(text, "cps") else list(map(ord, text))
         T = (lambda f: f if isinstance(f, bool) else truth(f)) if not NATIVE else bool
+        # codec contract: files are written as plain UTF-8; "utf-8" decodes them to the same characters, "utf-8-sig" additionally
+        # swallows one leading U+FEFF; any other codec is outside the model
+        enc = (encoding or "utf-8").lower().replace("_", "-")
+        if enc == "utf-8-sig":
+            if cps and T(cps[0] == 0xFEFF):
+                cps = cps[1:]
+        elif enc not in ("utf-8", "utf8"):
+            if NATIVE:
+                raise LookupError(encoding)
+            raise core.Inconclusive("text codec %r is not part of the file model" % (encoding,))
         lines, cur = [], []
         i = 0
         while i < len(cps):
@@ -166,7 +176,7 @@ class Patched(object):
     def __enter__(self):
         self.saved = (SF.__dict__.get("open"), SF.safe_open, SF.os, SF.fs.ensure_path)
         SF.open = self.fs.open
-        SF.safe_open = lambda path, mode="r", **kw: self.fs.reader(path)
+        SF.safe_open = lambda path, mode="r", **kw: self.fs.reader(path, kw.get("encoding"))
         SF.os = MemOS(self.fs)
         SF.fs.ensure_path = lambda p, mode=0o755: None
         return self
@@ -234,7 +244,7 @@ def judge_roundtrip(prov, doc, back, content, lines, eq):
     return bad
 
 
-LINE_ALPHA = [(32, 126), (0xe9, 0xe9), (12, 12), (0x2028, 0x2028), (9, 9)]
+LINE_ALPHA = [(32, 126), (0xe9, 0xe9), (12, 12), (0x2028, 0x2028), (9, 9), (0xFEFF, 0xFEFF)]
 
 
 def make_content(nlines, maxlen):
@@ -382,6 +392,63 @@ def make_boundaries():
     return fn
 
 
+# ------------------------------------------------------------------ O3: raw files (copied with cp) on a real scratch tree, finite exploration
+RAW_SOURCES = ["regular", "relative-symlink", "absolute-symlink", "chained-symlink", "symlinked-directory"]
+RAW_BYTES = b"\x00\x01raw \xff\xfe bytes\nsecond line\n"
+
+
+def raw_roundtrip(source, save_as):
+    """a RawFileProvider for a file reached as `source` describes, persisted by its serializer and loaded back; returns problems"""
+    base = tempfile.mkdtemp(prefix="c11raw_")
+    try:
+        root = os.path.join(base, "root")
+        os.makedirs(os.path.join(root, "usr", "lib"))
+        os.makedirs(os.path.join(root, "etc"))
+        with open(os.path.join(root, "usr", "lib", "os-release"), "wb") as f:
+            f.write(RAW_BYTES)
+        rel = "etc/os-release"
+        link = os.path.join(root, rel)
+        if source == "regular":
+            shutil.copy(os.path.join(root, "usr", "lib", "os-release"), link)
+        elif source == "relative-symlink":
+            os.symlink("../usr/lib/os-release", link)
+        elif source == "absolute-symlink":
+            os.symlink(os.path.join(root, "usr", "lib", "os-release"), link)
+        elif source == "chained-symlink":
+            os.symlink("../usr/lib/os-release", os.path.join(root, "etc", "mid"))
+            os.symlink("mid", link)
+        else:
+            os.rmdir(os.path.join(root, "etc"))
+            os.symlink("usr/lib", os.path.join(root, "etc"))
+        prov = SF.RawFileProvider(rel, root=root, save_as=save_as)
+        data = os.path.join(base, "out", "data")
+        doc = json.loads(json.dumps(serde.serialize(prov, root=data)))
+        try:
+            back = serde.deserialize(doc, root=data, ctx=None, ds=None)
+            content = back.content
+        except Exception as ex:  # noqa
+            return ["a raw file reached through %s cannot be loaded back: %r" % (source, ex)]
+        bad = []
+        if content != RAW_BYTES:
+            bad.append("raw file (%s): %r persisted, %r loaded" % (source, RAW_BYTES, content))
+        if back.relative_path != doc["object"]["relative_path"]:
+            bad.append("relative location differs")
+        return bad
+    finally:
+        shutil.rmtree(base, ignore_errors=True)
+
+
+def make_raw():
+    def fn(en):
+        source = RAW_SOURCES[en.choice("source", len(RAW_SOURCES))]
+        save_as = SAVE_AS[en.choice("save_as", len(SAVE_AS))]
+        case = lambda mv: {"kind": "raw", "source": source, "save_as": save_as}  # noqa
+        en.note_sample(case)
+        bad = raw_roundtrip(source, save_as)
+        en.must_hold(not bad, "content-roundtrip", case, detail=bad)
+    return fn
+
+
 # ------------------------------------------------------------------ O2: corruption of metadata entries (real scratch directory)
 FAULTS = ["intact", "deleted", "truncated", "non-json", "unknown-name", "data-file-missing", "json-null", "json-list", "json-empty-object"]
 
@@ -513,11 +580,11 @@ def obligations(tier):
     return [
         Obligation("O1-content", make_content(3, 3 if thorough else 2), ["content-roundtrip"],
                    desc="write -> serialize -> JSON -> deserialize -> load for every provider kind and save-as form on symbolic lines",
-                   bounds={"lines": "1-3 of 0-%d symbolic chars over printable ASCII, tab, form feed, U+00E9, U+2028 (no \\n, \\r)" % (3 if thorough else 2), "providers": KINDS, "save_as": SAVE_AS},
+                   bounds={"lines": "1-3 of 0-%d symbolic chars over printable ASCII, tab, form feed, U+00E9, U+2028, U+FEFF (no \\n, \\r)" % (3 if thorough else 2), "providers": KINDS, "save_as": SAVE_AS},
                    assumptions=["no line-break character (\\n, \\r) inside a line; a spec whose lines are all empty is not persisted"],
                    stubs=["open / safe_open / os.stat / os.path.exists / fs.ensure_path of spec_factory are an in-memory store; reading follows the text-mode contract (universal newlines)",
-                          "str.encode('utf-8') on symbolic text is carried through unchanged (the UTF-8 codec is outside the encoding)"],
-                   outside=["UTF-8 codec, json module", "RawFileProvider (shells out to cp)", "very long lines"], encoded=enc[:12], budget_s=900 if thorough else 200, replay="content",
+                          "str.encode('utf-8') on symbolic text is carried through unchanged; reading honours the codec named by the caller under the contract: utf-8 = same characters, utf-8-sig = same minus one leading U+FEFF, anything else inconclusive"],
+                   outside=["UTF-8 codec, json module", "very long lines"], encoded=enc[:12], budget_s=900 if thorough else 200, replay="content",
                    check_sample=True),
         Obligation("O1b-multi-output", make_multi(3 if thorough else 2), ["content-roundtrip"],
                    desc="a multi-output result (list of providers, each of any kind) through serde.marshal -> JSON -> serde.unmarshal: every element comes back as the same kind with its lines, command, arguments, location, in order",
@@ -527,6 +594,10 @@ def obligations(tier):
                    desc="contents whose number of lines is k, k+1, k+2 for every integer literal k (8..20000) found in the current source of spec_factory.py / serde.py (chunk sizes, limits): lines next to the boundary symbolic, the rest concrete filler",
                    bounds={"line counts": "k, k+1, k+2 for k in %s (read from the source on every run)" % (code_constants(),), "symbolic lines": "first, last, k-1, k (1 char each)", "providers": ["datasource", "command", "text_file"]},
                    stubs=["in-memory file layer as in O1"], encoded=enc[:2], budget_s=600 if thorough else 150, replay="content", check_sample=True),
+        Obligation("O3-raw-files", make_raw(), ["content-roundtrip"],
+                   desc="raw (binary) files persisted by the real cp on a real scratch tree: reached directly, through a relative / absolute / chained symlink or a symlinked directory, every save-as form; the loaded bytes equal the source bytes (finite exploration)",
+                   bounds={"sources": RAW_SOURCES, "save_as": SAVE_AS, "content": "fixed bytes incl. NUL and non-UTF-8"}, outside=["cp itself"], encoded=[SF.RawFileProvider.write, SF.serialize_raw_file_provider, SF.deserialize_raw_file_provider],
+                   budget_s=120, replay="content", check_sample=True),
         Obligation("O2-corruption", make_corrupt(), ["corruption-tolerated"],
                    desc="real Hydration on a scratch directory: four components (one multi-output, one failed), every fault on any subset of the three loadable entries, four listing orders",
                    bounds={"faults": FAULTS, "entries": 3, "listing order": "4 rotations"},
@@ -556,6 +627,8 @@ def _native(case):
         finally:
             shutil.rmtree(root, ignore_errors=True)
         return bad
+    if case["kind"] == "raw":
+        return raw_roundtrip(case["source"], case["save_as"])
     if case["kind"] == "multi":
         provs, docs, backs, contents, errors = roundtrip_multi(case["providers"], case["lines"])
         return judge_multi(provs, docs, backs, contents, errors, case["lines"], lambda a, b: a == b)
